@@ -24,15 +24,27 @@ def ref(n):
     return {"$ref": f"#/components/schemas/{n}"}
 
 
-def union_key(d: dict, w: str, enc) -> str:
-    """Canonical key for a lossy union: which member captured the value."""
-    ms = d["ms"] if d["kind"] == "union" else [d["kind"]]
-    if w in ("dts", "dt0") and "date" in ms:
-        return f"C02/union-lossy/captured-by=date/value={w}"
-    if w == "ds" and "datetime" in ms:
-        return "C02/union-lossy/captured-by=datetime/value=ds"
-    if w == "arri" and "listint" in ms and ("listM" in ms or "listdate" in ms):
+VALID_LEAF = {"any": None, "bool": {"t", "f"}, "int": {"i1", "i2", "i7"}, "float": {"i1", "i2", "i7", "f15", "f10"},
+              "str": {"s", "ds", "dts", "dt0", "us", "m1", "m2"}, "date": {"ds"}, "datetime": {"dts", "dt0"}, "uuid": {"us"}, "enums": {"m1", "m2"},
+              "enumi": {"i1", "i2"}, "none": {"null"}, "modelM": {"objv", "objvw"}, "modelN": {"objw", "objvw"}, "modelS": {"objv"},
+              "listint": {"arr0", "arri"}, "listdate": {"arr0", "arrd"}, "listM": {"arr0", "arro"}}
+HAS_CONSTRUCT = {"date", "datetime", "uuid", "enums", "enumi", "modelM", "modelN", "modelS", "listint", "listdate", "listM"}
+PY_KIND = {"date": "date", "datetime": "datetime", "UUID": "uuid", "Enum:ES": "enums", "Enum:EI": "enumi", "Model:M": "modelM", "Model:N": "modelN",
+           "Model:S": "modelS"}
+
+
+def union_key(d: dict, w: str, enc, py: str | None = None) -> str:
+    """Canonical key for a lossy union: which member captured the value, and where it is listed relative to the members the value
+    is valid for (before / after-passthrough = only non-constructing members precede it / after = a constructing valid member precedes it)."""
+    ms = list(d["ms"]) if d["kind"] == "union" else [d["kind"]]
+    if w == "arri" and "listint" in ms and ("listM" in ms or "listdate" in ms) and enc == "raise":
         return "C02/union-lossy/raw-list-reaches-constructed-list-encoder/value=arri"
+    captor = PY_KIND.get(py or "")
+    if captor in ms:
+        ci = ms.index(captor)
+        valid_before = [k for k in ms[:ci] if VALID_LEAF.get(k) is None or w in VALID_LEAF[k]]
+        listed = "before" if not valid_before else ("after-passthrough" if all(k not in HAS_CONSTRUCT for k in valid_before) else "after")
+        return f"C02/union-lossy/captured-by={captor}/value={w}/listed={listed}"
     return f"C02/union-lossy/members={'+'.join(ms)}/value={w}/got={enc}"
 
 
@@ -70,7 +82,7 @@ def judge_flat(rep, descs, cases, out, validity) -> list[dict]:
                             value=codec.WIRE.get(w), schema=codec.schema_of(d))
                 continue
             if r.get("enc_raise"):
-                key = union_key(d, w, "raise") if d["kind"] == "union" else f"C02/encode-raises/{sig}/{w}"
+                key = union_key(d, w, "raise", r.get("py")) if d["kind"] == "union" else f"C02/encode-raises/{sig}/{w}"
                 rep.violate(key, f"decoded value of {w} cannot be re-encoded: {r['enc']}", d=d, w=w, schema=codec.schema_of(d))
                 continue
             if not r.get("enc_plain") or not r.get("json_ok"):
@@ -81,7 +93,7 @@ def judge_flat(rep, descs, cases, out, validity) -> list[dict]:
                 if w == "absent" and d["kind"] in ("listdate", "listM"):
                     key = f"C02/absent-optional-list-becomes-empty/{d['kind']}"
                 elif d["kind"] == "union" or d["nul"]:
-                    key = union_key(d, w, enc)
+                    key = union_key(d, w, enc, r.get("py"))
                 else:
                     key = f"C02/round-trip/{sig}/{w}/got={enc}"
                 rep.violate(key, f"{w} ({json.dumps(codec.WIRE.get(w))}) decodes and re-encodes as {enc} ({json.dumps(r.get('enc'), default=repr)[:80]})",
